@@ -30,6 +30,9 @@ TRUSTED = [
     'wcshelper.sky2pix_ellipse is an uninterpreted function in the theorems; its real outputs are tabulated by the harness (binary64, '
     'exact dyadics) and fed to the model. That they are the catalogued sky position / axes / PA is property C16',
     'numpy float32/float64 arithmetic, astropy FITS and table I/O (inputs/outputs of the comparison); lmfit/MINPACK in the find->subtract loop',
+    'command line glue AegeanTools/CLI/AeRes.py (argument parsing, defaults, option -> keyword mapping, argument order, output '
+    'naming) is not modelled in Coq; it is tied on every run by tools/harness/cli_cases.py: AeRes command lines (-c -f -r -m, --add, --mask with --sigma / --frac, --racol ... --pacol, csv / fits / vot catalogues) run in subprocesses and '
+    'the files they write equal, bit for bit (tables apart from uuids), those of the library call that --help and the docstrings promise',
 ]
 ASSUMPTIONS = [
     'round-off: a make_model pixel is within 1e-6 * (sum of |peak| of the sources evaluated on it) of the real-valued model (the array is '
@@ -643,6 +646,9 @@ def run(ctx, model_ok=True):
                                        'what': res['msg']})
     ctx.oblige(f'validation: find -> subtract on the real finder leaves < 1e-3 of the peak ({done} images, 2 isolated sources of either sign each)',
                done > 0 and not any(f.get('what') == 'find -> subtract residual' for f in ctx.failures), 'no finder run completed' if not done else '')
+    # ---- command line tie: the argument glue of AegeanTools/CLI vs the library call that --help promises
+    from harness import cli_cases
+    cli_cases.hook(ctx, cli_cases.aeres_cli, 'AeRes')
 
 
 # ------------------------------------------------------------------------------------------ jobs in their own processes
@@ -761,6 +767,9 @@ def replay(ctx, obj):
         for b in obj.get('broken', []):
             print('  ', b.get('what'), str(b.get('detail', b.get('case', '')))[:400])
         return 1
+    if fi.get('kind') == 'cli':
+        from harness import cli_cases
+        return cli_cases.replay_cli(ctx, fi)
     kind = fi.get('kind')
     msg = None
     if kind == 'model':
